@@ -482,7 +482,6 @@ func c16DurationString(c *fw.Ctx, s string) {
 	}
 }
 
-
 // ---- G: range literals as the parser reads them (what may stand around the dash)
 
 var c16RangeTimes = []string{"<23:00", "<24:00", "0:00", "8:00", "08:00", "11:59am", "12:00pm", "12:30pm", "23:59", "24:00", "0:30>", "23:59>"}
